@@ -61,6 +61,14 @@ CHECKS = {
                      "above by end() (this rule found and now guards the fixed skip_until defect); AsInput conversions copy the right fields.",
                 note="Necessary structural conditions; equality of whole parse results between the two ways of parsing is not decided.",
                 ref="§4 C08; §5.1"),
+    "C09": dict(level="other", tech="call-graph inventories with exact-key discharge tables (unsafe blocks, panic sites), build-profile normal-form comparison",
+                text="Partial: (1) every unsafe block of pest_typed in both build profiles is matched, by a key made of its full expression "
+                     "(locals resolved) and dominating guards, against a reviewed discharge table; unsafe fns and callers of cursor() are confined; "
+                     "(2) all 3260 function bodies are normal-form equal between debug and release builds, and the only cfg!(debug_assertions) "
+                     "switch allowed is checked/unchecked slicing of one range in get(); (3) every panic-capable, debug-assert and usize-subtraction "
+                     "site reachable from the entry points and Tracker::collect is discharged by exact key. Does not prove panic-freedom.",
+                note="Discharge reasons are reviewed arguments (tables/discharge_*.json), several rest informally on the cursor invariant; external crates trusted.",
+                ref="§4 C09; §3.7"),
     "C12": dict(level="translation_validation", tech="sibling normal-form equality of typed HIR (repo copy vs pest source)",
                 text="Translation validation: Position::{new,line_col,line_of,find_line_start,find_line_end,at_start,at_end,...} "
                      "are shown to be the same programs as pest's (typed-HIR normal forms equal), hence equal results for every "
@@ -73,6 +81,14 @@ CHECKS = {
                      "merge_spans, LinesSpan/Lines::next, PartialEq/Hash of Span and Position are the same programs as pest's.",
                 note="Same trusted base as C12.",
                 ref="§4 C12,C13; §3.4"),
+    "C14": dict(level="other", tech="call-graph inventory of panic/usize-subtraction sites with exact-key discharge table; match-table read-off; must-pass-through rule",
+                text="Partial: every panic-capable site and raw usize subtraction reachable from Display/display of Span and Position is discharged by a "
+                     "reviewed reason keyed by expression and guards (this rule found the empty-input panic, now fixed); control characters map to "
+                     "their pictures (33 table entries read from the match); every successful path of display_span/display_position must pass a "
+                     "display_snippet call (reports the known finding: a Position at end of input is displayed as nothing). Line numbers, line "
+                     "selection and marker columns are runtime arithmetic: not decided.",
+                note="Discharge table is part of the specification; one open known finding (R14-SHOW:display_position) in known_findings.json.",
+                ref="§4 C14; §5.2, §5.5"),
     "C19": dict(level="other", tech="effect-decision-tree rules: loop range, lower-bound guard, success counting; alias type structure",
                 text="RepeatMin/RepeatMinMax/AtomicRepeat (TypedNode and NeverFailedTypedNode impls, both twins): loop over 0.. / 0..MAX, one unit "
                      "per iteration, success carries the unit's cursor, failure fails iff i < MIN else stops with the pre-iteration cursor, i counts "
